@@ -125,7 +125,7 @@ def solve_cases(rng, tier, stats):
             if "res" not in box:
                 return "a backend raised"
             for cpp, r in box["res"].items():
-                if r > C_RES * eps:
+                if not (r <= C_RES * eps):      # NaN-safe
                     return "use_cpp=%s: relative residual %.3g*eps exceeds %g*eps (%s)" % (cpp, r / eps, C_RES, label)
             if box["dres"] > 2 * C_RES * eps:
                 return "the two backends differ: ||A(x_cpp - x_py)||/||b|| = %.3g*eps" % (box["dres"] / eps)
@@ -175,7 +175,7 @@ def matvec_cases(rng, tier, stats):
             if "errs" not in box:
                 return "a backend raised"
             for cpp, e in box["errs"].items():
-                if e > C_ERR * eps and e > 1e-13:
+                if not (e <= C_ERR * eps or e <= 1e-13):      # NaN-safe
                     return "use_cpp=%s: relative error %.3g*eps exceeds %g*eps (%s)" % (cpp, e / eps, C_ERR, label)
             return None
         cases.append(Case(None, impl, oracle, label, True, desc="%s N=%s M=%s eps=%.2g seed=%d" % (label, N, M, eps, seed)))
